@@ -1,7 +1,9 @@
 package main
 
 import (
+	"errors"
 	"fmt"
+	"io"
 	"os"
 	"slices"
 	"sort"
@@ -171,7 +173,13 @@ func cmdRun(fontID, casesPath, outPath string) {
 		}
 	}
 
-	// V2: TLC-generated schedules with real goroutines
+	// V2: TLC-generated schedules with real goroutines.  The process has a past by then: calls that FAILED
+	// (on another instance of the font, see failedPast) precede every other case.
+	if !cold {
+		if pf, err := fs.build(); err == nil {
+			pastFont = pf
+		}
+	}
 	if cold {
 		for _, e := range held {
 			out.Emit(e)
@@ -212,6 +220,9 @@ func runCase(f *sfnt.Font, fontID string, c Case, cold bool, emit func(map[strin
 			progs[g] = append(progs[g], op)
 		}
 	}
+	if !cold && c.ID%2 == 0 {
+		failedPast()
+	}
 	before, content, _ := measure2(f)
 	emit(map[string]any{"ev": "case", "font": fontID, "id": c.ID, "n": n, "prog": c.Prog, "sched": c.Sched,
 		"fresh": c.Fresh || cold, "cold": cold, "inst_fp": before, "inst_content": content})
@@ -243,6 +254,60 @@ func runCase(f *sfnt.Font, fontID string, c Case, cold bool, emit func(map[strin
 	}
 	after, _ := measure(f)
 	emit(map[string]any{"ev": "end", "font": fontID, "id": c.ID, "before": before, "after": after})
+}
+
+// pastFont is a second instance of the font of this process, used only by failedPast.
+var pastFont *sfnt.Font
+
+type refusingWriter struct{ left int }
+
+func (w *refusingWriter) Write(p []byte) (int, error) {
+	if len(p) > w.left {
+		n := w.left
+		w.left = 0
+		return n, errors.New("refused")
+	}
+	w.left -= len(p)
+	return len(p), nil
+}
+
+// failedPast gives the process a past of calls that failed: every output form of a subset that cannot be
+// written (no .notdef glyph; no glyphs at all) and of the font itself into a writer that refuses the data
+// half-way.  None of this involves the font value the goroutines of a case share, so it cannot change what
+// their calls return; whatever a failed call leaves behind inside the library (a scratch buffer handed back
+// twice, a half-initialised cache) is then met by concurrent calls.
+func failedPast() {
+	f := pastFont
+	if f == nil {
+		return
+	}
+	try := func(fn func()) {
+		defer func() { recover() }()
+		fn()
+	}
+	subs := [][]glyph.ID{{}}
+	if f.NumGlyphs() > 1 {
+		subs = append(subs, []glyph.ID{1}, []glyph.ID{1, 1})
+	}
+	for r := 0; r < 6; r++ {
+		for _, gl := range subs {
+			try(func() {
+				sub := f.Subset(gl)
+				sub.Write(io.Discard)
+				if sub.IsCFF() {
+					sub.WriteOpenTypeCFFPDF(io.Discard)
+					sub.AsCFF().Write(io.Discard)
+				} else {
+					sub.WriteTrueTypePDF(io.Discard)
+				}
+			})
+		}
+		try(func() { f.Write(&refusingWriter{left: 100 + 300*r}) })
+		if f.IsCFF() {
+			try(func() { f.WriteOpenTypeCFFPDF(&refusingWriter{left: 50 + 200*r}) })
+			try(func() { f.AsCFF().Write(&refusingWriter{left: 40 + 100*r}) })
+		}
+	}
 }
 
 // worker is one goroutine of a case: it performs its calls in order, each when released.
